@@ -1,5 +1,7 @@
 """C19 on the real code: BlockSeries[item] against the same item applied to the dense object array of element values,
 with zero elements masked; each element evaluated at most once; negative / infinite orders raise IndexError."""
+import os, sys; sys.path.insert(0, os.path.dirname(os.path.abspath(__file__)))
+from common import case_rnd, skip
 import sys, json, random, itertools, warnings
 import numpy as np
 warnings.simplefilter("ignore")
@@ -19,6 +21,8 @@ def show(it): return [str(x) for x in it]
 def main(seed, ncases, driver, out):
     rnd = random.Random(seed); failures = []; dist = {}; samples = []; evals = 0; distinct = 0
     for c in range(ncases):
+        if skip(c): continue
+        rnd = case_rnd(seed, c)
         shape = tuple(rnd.randint(1, 3) for _ in range(rnd.choice([0, 1, 2, 2]))); ninf = rnd.choice([1, 1, 2]) if shape else rnd.choice([1, 2])
         top = 4; log = []
         def ev(*idx, log=log):
